@@ -113,14 +113,19 @@ func c09Generate(r *common.Rand, overlap bool) mCase {
 			}
 		}
 		switch x := r.Intn(100); {
-		case x < 3: // an unsolicited reply for an id nobody is waiting for
-			q := &c09Req{count: r.Chance(40), id: "x9"}
+		case x < 4: // an unsolicited (late, repeated) reply for an id nobody is waiting for
+			q := &c09Req{count: r.Chance(40)}
+			univ := append([]string{"x9"}, ids...)
 			if q.count {
-				q.id = "c9"
+				univ = append([]string{"c9"}, subs...)
+			}
+			q.id = common.Pick(r, univ)
+			if inFlight(q.count, q.id) {
+				continue
 			}
 			c.Steps = append(c.Steps, mStep{K: "child", I: r.Intn(n), M: c09Reply(r, q)})
 			continue
-		case x < 6: // unrelated REQ traffic
+		case x < 7: // unrelated REQ traffic
 			switch r.Intn(3) {
 			case 0:
 				c.Steps = append(c.Steps, mStep{K: "req", Sub: "s1", Fs: []common.JFilter{{}}})
